@@ -143,6 +143,14 @@ var Imports = []Import{
 
 // ImportVariants: names with bytes >= 0x80 (valid and invalid UTF-8); keywords are case-insensitive; a leading backslash in a function / constant import
 var ImportVariants = []Import{
+	// group uses with prefixes of 3 and 5 segments and 3 items (lists built by appending have spare capacity at these lengths)
+	{`use P1\P2\P3\{Foo, Second, Third as Tre};`, func(s *Scope) { s.Class["foo"] = `P1\P2\P3\Foo`; s.Class["second"] = `P1\P2\P3\Second`; s.Class["tre"] = `P1\P2\P3\Third` }, true},
+	{`use function P1\P2\P3\P4\P5\{foo, second, third};`, func(s *Scope) {
+		s.Fn["foo"] = `P1\P2\P3\P4\P5\foo`
+		s.Fn["second"] = `P1\P2\P3\P4\P5\second`
+		s.Fn["third"] = `P1\P2\P3\P4\P5\third`
+	}, true},
+	{`use P1\P2\P3\{const Foo, Q\R\Foo, function foo};`, func(s *Scope) { s.Const["Foo"] = `P1\P2\P3\Foo`; s.Class["foo"] = `P1\P2\P3\Q\R\Foo`; s.Fn["foo"] = `P1\P2\P3\foo` }, true},
 	{"use X\\B\u00e4r;", func(s *Scope) { s.Class["b\u00e4r"] = "X\\B\u00e4r" }, false},
 	{"use X\\Y as B\xff;", func(s *Scope) { s.Class["b\xff"] = `X\Y` }, false},
 	{"use function X\\B\u00e4r;", func(s *Scope) { s.Fn["b\u00e4r"] = "X\\B\u00e4r" }, false},
